@@ -24,13 +24,13 @@ Theorem C01_every_position_in_space :
   Forall (fun a => in_spaceb t (a_pos a) = true) (heap FT (exec_ops W dot FT fitness_of obj t d w ops)).
 Proof. intros. eapply every_agent_well_formed; eauto. Qed.
 
-(* the conformance predicate is the condition under which the machine has the property: a raw site admits a violation *)
-Theorem C01_raw_site_admits_violation : forall W dot FT fitness_of obj t d w sk a,
+(* the conformance predicate is the condition under which the machine has the property: a raw site allows a violation *)
+Theorem C01_raw_site_allows_violation : forall W dot FT fitness_of obj t d w sk a,
   sk_raw_sites sk <> 0 -> ~ wf_agent W dot FT fitness_of obj t d w a ->
   exists ops, Forall (fun o => licensed FT sk o = true) ops /\ Forall (raw_ok FT t) ops /\
               ~ Forall (wf_agent W dot FT fitness_of obj t d w) (heap FT (exec_ops W dot FT fitness_of obj t d w ops)).
-Proof. exact raw_site_admits_violation. Qed.
+Proof. exact raw_site_allows_violation. Qed.
 
 Print Assumptions C01_init_agent_regenerated.
 Print Assumptions C01_every_position_in_space.
-Print Assumptions C01_raw_site_admits_violation.
+Print Assumptions C01_raw_site_allows_violation.
